@@ -16,7 +16,7 @@ import random
 import re
 
 import vlib
-from props.c11 import sections, parse_dump, strip_ord
+from props.c11 import sections, parse_dump, strip_ord, known_or_violation
 
 PID = "C14"
 FAMILY = "clone"
@@ -475,7 +475,7 @@ def run(tier, seed, replay=None):
             rep.known_finding(KNOWN_PTR, "%s: %s" % (c, kf))
         for kf in stale_known:
             stats["stale_node_refs_known"] = stats.get("stale_node_refs_known", 0) + 1
-            rep.known_finding(KNOWN_EXTRA, "%s: %s" % (c, kf))
+            known_or_violation(rep, KNOWN_EXTRA, "%s: %s" % (c, kf), {"case": c, "family": FAMILY, "errors": stale_known[:4]})
         if errs:
             rep.violation("cloned shape is not a self-contained equal copy / source touched: " + errs[0], {"case": c, "family": FAMILY, "errors": errs[:8]})
         # -- correspondence
